@@ -264,7 +264,7 @@ def contracts(tier):
                  setup=setup_ww, replay=rp, assumptions=A + [
                      'len()/rfind() of a token are arbitrary integers '
                      '(over-approximation of the column bookkeeping)']),
-    ] + top_contracts(tier)
+    ] + pretty_contracts(tier) + top_contracts(tier)
 
 
 # ---------------------------------------------------------------------------
@@ -318,7 +318,7 @@ GhostFile.close = lambda self: None
 def setup_top(eng, mode):
     import types
     setup(eng)
-    eng._ns.pretty_print = False
+    eng._ns.pretty_print = mode == 'pretty'
     eng._ns.wrap_lines = mode == 'wrap'
     N = 'C07/write_smtlib'
     holder = {}
@@ -340,8 +340,14 @@ def setup_top(eng, mode):
         file.last_atom = p.fresh_bool('last_atom_after_tree')
         file.pending = z3.BoolVal(False)
 
+    def pretty_writer(e, file, expr):
+        # contract of __write_smtlib_pretty: every line it writes is ended
+        tree_writer(e, file, expr)
+        file.last_atom = z3.BoolVal(False)
+
     eng.overrides[W] = tree_writer
     eng.overrides[WW] = tree_writer
+    eng.overrides['ddsmt.nodeio.__write_smtlib_pretty'] = pretty_writer
     eng.native_modules['io'] = types.SimpleNamespace(
         StringIO=lambda: GhostFile(cur(), N))
     def open_(e, path, mode='r', *a, **k):
@@ -409,6 +415,7 @@ def setup_top(eng, mode):
         return LoopSpec(inv=inv, havoc={'effect:file': havoc}, elem=elem,
                         exhausted=exhausted, on_entry=on_entry)
 
+    eng.loop_specs[(WS_, 'for expr in exprs')] = for_spec(False)
     eng.loop_specs[(WS_, 'for expr in exprs#2')] = for_spec(False)
     eng.loop_specs[(WS_, 'for line in lines')] = for_spec(True)
     eng.loop_specs[(WC, 'for expr in exprs')] = for_spec(False)
@@ -450,15 +457,16 @@ def make_run_top(mode):
 
 
 def top_contracts(tier):
-    A = ['__write_smtlib / __write_smtlib_wrapped through their contract '
-         '(verified: contracts __write_smtlib, __write_smtlib_wrapped)',
+    A = ['__write_smtlib / __write_smtlib_wrapped / __write_smtlib_pretty '
+         'through their contracts (verified by the contracts of the same '
+         'name)',
          'FLATL unfolded from the front for the expression taken next',
          'the list of expressions is an abstract list of arbitrary length',
          'io.StringIO / open() give the ghost file']
     rp = wl.harness_replay('harness/parser_native.py', ['render', 4],
                            ['C07'])
     cs = []
-    for mode in ('default', 'wrap', 'checking'):
+    for mode in ('default', 'wrap', 'pretty', 'checking'):
         cs.append(Contract(
             f'write_smtlib[{mode}]',
             [WC if mode == 'checking' else WS_,
@@ -467,3 +475,211 @@ def top_contracts(tier):
             setup=lambda e, mode=mode: setup_top(e, mode), assumptions=A,
             replay=rp))
     return cs
+
+
+# ---------------------------------------------------------------------------
+# __write_smtlib_pretty: (node, visited) work list, indentation, the
+# all-leaves shortcut through Node.__str__
+
+WP = 'ddsmt.nodeio.__write_smtlib_pretty'
+ALLLEAF = z3.Function('ALLLEAF', SeqS, z3.BoolSort())
+
+
+class Blank(SStr):
+    """A string of blanks of unknown length (the indentation)."""
+    __slots__ = ()
+
+    def __init__(self, p):
+        v = p.fresh_str('indent')
+        SStr.__init__(self, [('v', v)])
+        p.ghost.setdefault('blank_vars', set()).add(str(v))
+
+    def getitem(self, key):
+        if isinstance(key, slice):
+            return Blank(cur())  # a piece of a blank string is blank
+        raise sym.Unsupported('character of the indentation')
+
+
+class AbsMapST(sym.Abstract):
+    """map(f, children of a lazy node)"""
+
+    def __init__(self, f, t):
+        self.f, self.t = f, t
+
+
+def _is_blank_part(p, part):
+    return part[0] == 'v' and str(part[1]) in p.ghost.get('blank_vars', ())
+
+
+_leaf0 = GhostFile._leaf
+
+
+def _leaf(self, p, part):
+    if _is_blank_part(p, part):
+        # possibly empty: separates nothing, terminates nothing
+        return
+    reg = p.ghost.get('rendered', {})
+    if part[0] == 'v' and str(part[1]) in reg:
+        _ghost_write_rendered(self, p, reg[str(part[1])])
+        return
+    _leaf0(self, p, part)
+
+
+GhostFile._leaf = _leaf
+
+
+def setup_wp(eng):
+    setup(eng)
+    eng.spec_required.add(WP)
+    from pyvc.interp import _hkey
+    map0 = eng.native_handlers[_hkey(map)]
+    all0 = eng.native_handlers[_hkey(all)]
+    join0 = eng.method_handlers[(str, 'join')]
+
+    def b_map(e, f, *its):
+        if len(its) == 1 and isinstance(its[0], nm.STuple):
+            return AbsMapST(f, its[0])
+        return map0(e, f, *its)
+
+    def probe(e, kind):
+        p = cur()
+        g = nm.lazy_node(e, p, p.fresh_name('probe'))
+        s = nm.S(g)
+        p.assume(Struct.is_tup(s) if kind == 'list' else z3.Not(
+            Struct.is_tup(s)))
+        return g
+
+    def b_all(e, it):
+        if isinstance(it, AbsMapST):
+            # the predicate must be "is a leaf": true on an arbitrary leaf,
+            # false on an arbitrary list
+            a = e.truth(e.call(it.f, [probe(e, 'leaf')], {}))
+            b = e.truth(e.call(it.f, [probe(e, 'list')], {}))
+            if not (a is True and b is False):
+                raise sym.Unsupported('all(map(pred, children)) with a '
+                                      'predicate other than is_leaf')
+            return cur().decide(ALLLEAF(it.t.seq_term()))
+        return all0(e, it)
+
+    def str_join(e, sep, it):
+        if isinstance(it, AbsMapST):
+            if it.f is not str or sep != ' ':
+                raise sym.Unsupported('join over children with another '
+                                      'function than str / separator')
+            # induction hypothesis: str(child) renders the tokens of the
+            # child; joined by blanks they render FLATL(children)
+            p = cur()
+            r = Rendered(p, FLATL(it.t.seq_term()), z3.BoolVal(False))
+            p.ghost.setdefault('rendered', {})[str(r.parts[0][1])] = r
+            return r
+        return join0(e, sep, it)
+
+    eng.native_handlers[_hkey(map)] = b_map
+    eng.native_handlers[_hkey(all)] = b_all
+    eng.method_handlers[(str, 'join')] = str_join
+
+    def item_den(it):
+        if isinstance(it, tuple) and len(it) == 2 and isinstance(
+                it[0], ObjVal) and isinstance(it[1], bool):
+            return z3.Unit(Tok.rp) if it[1] else FLAT(nm.S(it[0]))
+        raise sym.Unsupported('work-list item that is not (node, visited)')
+
+    def den(lst):
+        out = []
+        for part in reversed(lst.parts):
+            if isinstance(part, tuple):
+                out.append(item_den(part[1]))
+            elif isinstance(part, wl.Seg):
+                g = nm.lazy_node(eng, cur(), cur().fresh_name('probe'))
+                w = part.wrap(g) if part.wrap else None
+                if not (isinstance(w, tuple) and len(w) == 2 and w[0] is g
+                        and w[1] is False):
+                    raise sym.Unsupported('work-list items are not '
+                                          '(node, False)')
+                out.append(FLATL(part.seq if part.rev
+                                 else REVSEQ(part.seq)))
+            else:
+                out.append(part.den)
+        if not out:
+            return z3.Empty(SeqT)
+        return out[0] if len(out) == 1 else z3.Concat(*out)
+
+    def split(e, D):
+        p = cur()
+        rest = z3.Const(p.fresh_name('D'), SeqT)
+        n = nm.lazy_node(e, p, p.fresh_name('popped'))
+        s = nm.S(n)
+        if p.decide(p.fresh_bool('item_is_visited_marker')):
+            p.assume(Struct.is_tup(s))
+            p.assume(D == z3.Concat(z3.Unit(Tok.rp), rest))
+            return (n, True), rest
+        p.assume(D == z3.Concat(FLAT(s), rest))
+        unfold_flat(p, s)
+        # FLATL unfolded at the front (used when the head is written alone)
+        k = Struct.kids(s)
+        p.assume(z3.Implies(
+            z3.And(Struct.is_tup(s), z3.Length(k) > 0),
+            FLATL(k) == z3.Concat(FLAT(k[0]), FLATL(
+                z3.SubSeq(k, 1, z3.Length(k) - 1)))))
+        p.assume(z3.Implies(z3.And(Struct.is_tup(s), z3.Length(k) > 0,
+                                   z3.Not(Struct.is_tup(k[0]))),
+                            FLAT(k[0]) == z3.Unit(Tok.atom(k[0]))))
+        return (n, False), rest
+
+    def havoc(e, env_, p):
+        D = z3.Const(p.fresh_name('D'), SeqT)
+        env_.vars['visit'] = wl.AbsList(e, [wl.Opaque(
+            D, split, lambda d: z3.Length(d) > 0)])
+        env_.vars['indent'] = Blank(p)
+        env_.vars['file'].havoc(p)
+
+    def blank(p, v):
+        if isinstance(v, str):
+            return v.strip(' ') == ''
+        return isinstance(v, SStr) and all(
+            (k == 'c' and x.strip(' ') == '') or _is_blank_part(p, (k, x))
+            for k, x in v.parts)
+
+    def inv(e, env_):
+        p = cur()
+        v = env_.vars['visit']
+        f = env_.vars['file']
+        if isinstance(v, list):
+            v = wl.as_abs(e, v)
+        if not isinstance(v, wl.AbsList) or not isinstance(f, GhostFile):
+            return [False]
+        return [('C07', z3.Concat(f.toks, den(v)) == p.ghost['target']),
+                ('C07', z3.Not(f.pending)),
+                ('C07', z3.Not(f.last_atom)),
+                blank(p, env_.vars['indent'])]
+
+    def covers(e, env_, p):
+        x = env_.vars.get('ex')
+        what = 'visited-marker' if env_.vars.get('visited') is True else (
+            'leaf' if isinstance(x.attrs.get('data'), (str, SStr))
+            else 'list')
+        p.oblige(f'cover/__write_smtlib_pretty/writes-a-{what}', False,
+                 kind='cover')
+
+    eng.loop_specs[(WP, 'while visit')] = LoopSpec(
+        inv=inv, havoc={'effect:state': havoc}, sets=('visit', 'indent'),
+        on_iter_end=covers)
+
+
+def pretty_contracts(tier):
+    A = ['specification functions FLAT/FLATL uninterpreted, unfolded for the '
+         'node taken from the work list (FLATL also at its first element)',
+         'work lists are abstract lists (contracts/worklist.py)',
+         nm.ASSUME_LAZY, 'the file object is a ghost',
+         'the indentation is a string of blanks of unknown length',
+         'Node.__str__ of a list whose children are all leaves renders the '
+         'tokens of the children in order, separated by blanks (induction '
+         'over the children; join fold not machine-checked); a comment '
+         'inside a list ends with its line break']
+    rp = wl.harness_replay('harness/parser_native.py', ['render', 4],
+                           ['C07'])
+    return [
+        Contract('__write_smtlib_pretty', [WP],
+                 make_run('__write_smtlib_pretty', '__write_smtlib_pretty'),
+                 setup=setup_wp, assumptions=A, replay=rp),
+    ]
